@@ -294,14 +294,26 @@ def check_created(gf, m, spec, req_w, req_h):
 
 # ------------------------------------------------------------------ op execution
 
+def _tbl(env, gfs, t):
+    """the Table proxy for table t: the same object for the whole case, as user code holding
+    `table = shape.table` has it (state kept on proxies - caches, memos - then matters)"""
+    held = getattr(env, "held", None)
+    if held is None:
+        return gfs[t].table
+    k = id(gfs[t])
+    if k not in held:
+        held[k] = gfs[t].table
+    return held[k]
+
+
 def apply_op(env, gfs, models, op, kinds):
     """execute one op on the real tables and the models, check, append the op class to kinds"""
     kind = op[0]
     if kind == "merge":
         _, t1, r1, c1, t2, r2, c2, acc = op
         m = models[t1]
-        a = get_cell(gfs[t1].table, r1, c1, acc, m.c)
-        b = get_cell(gfs[t2].table, r2, c2, acc, models[t2].c)
+        a = get_cell(_tbl(env, gfs, t1), r1, c1, acc, m.c)
+        b = get_cell(_tbl(env, gfs, t2), r2, c2, acc, models[t2].c)
         if t1 != t2:
             verdict = "cross"
         else:
@@ -349,7 +361,7 @@ def apply_op(env, gfs, models, op, kinds):
     if kind == "split":
         _, t, r, c, acc = op
         m = models[t]
-        cell = get_cell(gfs[t].table, r, c, acc, m.c)
+        cell = get_cell(_tbl(env, gfs, t), r, c, acc, m.c)
         ok = m.split_ok(r, c)
         cls = "split-ok" if ok else ("split-spanned" if m.owner[r][c] is not None else "split-unmerged")
         before = None if ok else env.snapshot()
@@ -376,7 +388,7 @@ def apply_op(env, gfs, models, op, kinds):
     if kind in ("text", "para"):
         _, t, r, c, s = op
         m = models[t]
-        cell = gfs[t].table.cell(r, c)
+        cell = _tbl(env, gfs, t).cell(r, c)
         cls = kind + ("-on-spanned" if m.owner[r][c] not in (None, (r, c)) else "")
         with sut("C14:text:%s" % kind):
             if kind == "text":
@@ -392,7 +404,7 @@ def apply_op(env, gfs, models, op, kinds):
 
         _, t, i, v = op
         with sut("C14:size:row-height"):
-            gfs[t].table.rows[i].height = Emu(v)
+            _tbl(env, gfs, t).rows[i].height = Emu(v)
         models[t].rowh[i] = v
         kinds.append("row-height")
         check_state(gfs[t], models[t], "row-height")
@@ -400,7 +412,7 @@ def apply_op(env, gfs, models, op, kinds):
     if kind == "colw":
         _, t, j, v = op
         with sut("C14:size:col-width"):
-            gfs[t].table.columns[j].width = v
+            _tbl(env, gfs, t).columns[j].width = v
         models[t].colw[j] = v
         kinds.append("col-width")
         check_state(gfs[t], models[t], "col-width")
@@ -411,6 +423,8 @@ def apply_op(env, gfs, models, op, kinds):
 def run_case(case, rec=None):
     env = Env.get()
     env.reset()
+    # two of three cases keep one Table proxy per table for the whole sequence, the others take a fresh one per op
+    env.held = {} if case.get("hold", True) else None
     kinds = []
     try:
         gfs, models = [], []
@@ -427,8 +441,10 @@ def run_case(case, rec=None):
             check_state(gf, m, "end")
     finally:
         env.reset()
+        held = env.held is not None
+        env.held = None
         if rec is not None:
-            classes = list(kinds)
+            classes = list(kinds) + ["table-proxy-held" if held else "table-proxy-fresh-per-op"]
             for spec in case["tables"]:
                 classes.append("table-" + spec["how"])
                 if spec["how"] == "add" and (spec["w"] % spec["cols"] or spec["h"] % spec["rows"]):
